@@ -119,6 +119,19 @@ ALL = {"pairs": PAIRS, "called": CALLED, "first": FIRST, "literal": LITERAL, "th
 PLACEHOLDERS = ["A", "B", "C", "P", "Q"]
 
 
+def instantiate(templates, pool=("x", "y")):
+    "every legal naming of every template -> list of sources (de-duplicated, order kept)"
+    from vlib.skel import gen
+    seen, out = set(), []
+    for t in templates:
+        ph = [p for p in PLACEHOLDERS + ["D"] if "{%s}" % p in t]
+        for src, _ in gen.family_instances(t, ph, pool):
+            if src not in seen:
+                seen.add(src)
+                out.append(src)
+    return out
+
+
 def instances(pool=("x", "y")):
     "-> list of (family, source)"
     from vlib.skel import gen
